@@ -250,12 +250,16 @@ fn kinds_str(k: &[ErrKind]) -> String {
 
 pub fn open_options(max_buf: Option<u32>, strict: bool) -> OpenOptions {
     let mut o = OpenOptions::new();
+    // the builder calls commute: even sizes are set after strict(), odd ones before
+    if strict && max_buf.map(|m| m % 2 == 0).unwrap_or(false) {
+        o = o.strict();
+    }
     if let Some(m) = max_buf {
         // the top 2048 values of the u32 range stand for the top of the usize range
         let size = if m >= u32::MAX - 2047 { usize::MAX - (u32::MAX - m) as usize } else { m as usize };
         o = o.max_buffer_size(size);
     }
-    if strict {
+    if strict && !max_buf.map(|m| m % 2 == 0).unwrap_or(false) {
         o = o.strict();
     }
     o
